@@ -186,7 +186,31 @@ def run(ctx):
         if ms[-1] > 1500 and ms[-1] > 7 * max(1, ms[-2]):
             ctx.violation("superquadratic", {"family": name, "sizes": sizes, "ms": ms, "input": S(fn(sizes[-1])),
                                              "why": "doubling the input multiplies the running time by more than 7 (quadratic work would be 4)"})
-    ctx.extra["scaling_ms"] = {"sizes": sizes, "families": timing}
+    # the same for protobuf models handed to the graph builders: k relations that are tuple-to-usersets over one tupleset with
+    # k parent types, none of which defines the computed relation (the plain builder skips them): the input has 3k items
+    def ttu_fan(k):
+        types = [[S("user"), [], []]] + [[S("t%d" % i), [], []] for i in range(k)]
+        refs = [[S("t%d" % i), [0], []] for i in range(k)]
+        rl = [[S("parent"), [1, 1]]] + [[S("x%d" % i), [3, S("parent"), S("nope")]] for i in range(k)]
+        ml = [[S("parent"), [refs, [], []]]] + [[S("x%d" % i), [[], [], []]] for i in range(k)]
+        return [S("1.1"), types + [[S("doc"), rl, [[ml, [], []]]]], []]
+    msizes = [400, 800, 1600]
+    for name, op, extra in (("plain graph: tuple-to-usersets over parent types without the relation", "pgraph", {"labels": [], "repeat": 1}),
+                            ("weighted graph: the same model (rejected)", "wgraph", {"orders": [], "repeat": 1})):
+        ms = []
+        for k in msizes:
+            r = ctx.impl([dict({"op": op, "m": ttu_fan(k)}, **extra)], deadline_ms=120000)[0]
+            ms.append(120000 if r.get("timeout") else r.get("ms", 0))
+            if r.get("panic") is not None:
+                ctx.violation("entry-point-abnormal", {"op": op, "family": name, "size": k, "impl": {"panic": r["panic"]}})
+        timing[name] = ms
+        # two doublings: quadratic work multiplies the time by 16, cubic by 64
+        if ms[-1] > 1500 and ms[-1] > 30 * max(1, ms[0]):
+            ctx.violation("superquadratic", {"family": name, "sizes": msizes, "ms": ms, "op": op, "model_size_k": msizes[-1],
+                                             "why": "quadrupling the model multiplies the running time of the graph builder by more than 30 (quadratic work would be 16, cubic 64): "
+                                                    "k relations 'nope from parent' over a tupleset with k parent types cost k^3 look-ups"},
+                          found_input=True)
+    ctx.extra["scaling_ms"] = {"sizes": sizes, "model_sizes": msizes, "families": timing}
     ctx.sample({"mutant": docs[0][:200]})
     ctx.sample({"degenerate_model": models[-1]})
 
